@@ -333,6 +333,13 @@ GEN_THEOREMS = {
     "C07": ("CoreDhcp.Props.GenAlloc4", ["GEN_a4_allocate_eq", "GEN_a4_toOffset_eq"]),
 }
 GEN_THEOREMS_MORE = [
+    # plugins/file: both loaders, handle4/handle6, loadFromFile regenerated (unit fileplugin)
+    ("C10", "CoreDhcp.Props.GenFilePlugin", ['GEN_file_body4_eq', 'GEN_file_body6_eq', 'GEN_file_loop4_eq', 'GEN_file_loop6_eq', 'GEN_file_load4_eq', 'GEN_file_load6_eq', 'GEN_file_load4_model', 'GEN_file_load6_model', 'GEN_file_load_unreadable', 'GEN_file_loadFromFile_eq', 'GEN_file_loadFromFile_model', 'GEN_file_loadFromFile_unreadable', 'GEN_file_loadFromFile_error_unchanged', 'GEN_file_handle4_raw', 'GEN_file_handle4_eq', 'GEN_file_served4_eq', 'GEN_file_handle4_other', 'GEN_file_handle6_raw', 'GEN_file_handle6_eq', 'GEN_file_served6_eq', 'GEN_file_handle6_undecapsulated', 'GEN_file_handle6_other', 'GEN_file_exported', 'GEN_file_static_after_load', 'Gen7.wf_init', 'Gen7.wf_load']),
+    # plugins.LoadPlugins regenerated (unit loadplugins)
+    ("C13", "CoreDhcp.Props.GenLoadPlugins", ["GEN_lp_chain6_eq", "GEN_lp_chain4_eq", "GEN_lp_loop6_acc", "GEN_lp_loop4_acc", "GEN_lp_load_eq", "GEN_lp_load_tagged", "GEN_lp_load_ok"]),
+    # range Handler4 and the re-marking loop of setupRange regenerated (unit range4)
+    ("C02", "CoreDhcp.Props.GenRange4", ["GEN_range_handler4_eq", "GEN_range_remark_eq"]),
+    ("C03", "CoreDhcp.Props.GenRange4", ["GEN_range_handler4_eq'", "GEN_range_remarkBody_eq", "GEN_range_remark_eq", "GEN_range_setup_remark"]),
     ("C14", "CoreDhcp.Props.GenHandlers4", ["GEN_h4_serverid_eq"]),
     # bitmap.go (the IPv6 prefix allocator), regenerated as a whole (unit alloc6)
     ("C04", "CoreDhcp.Props.GenAlloc6", ["GEN_a6_allocate_eq", "GEN_a6_free_eq"]),
